@@ -9,6 +9,7 @@ import Fca.Spec.Galois
 import Fca.Lemmas.AllI
 import Fca.Lemmas.Names
 import Fca.Gen.Equiv
+import Fca.Gen.EquivCtx
 namespace Fca.C01
 open Fca
 
@@ -380,5 +381,85 @@ theorem gen_lists_any_i_axis0_exact (t : Table) (hwf : t.WF) (A : List Nat) (bas
 
 /-- non-vacuity, and the generated definition computes: -/
 example : Gen.Lists.allI1 ⟨[[true, false, true], [true, true, false]], 3⟩ (some [1, 0]) (some [2, 0]) = .ok [0] := by rfl
+
+end Fca.C01
+
+/-! ### the derivation operators of `FormalContext` themselves, for the definitions GENERATED from the Python source
+
+  `Fca.Gen.Lists.ctx*` is the translation of the current source of `FormalContext.extension_i / intention_i /
+  extension_monotone_i / intention_monotone_i / extension / intention` (and of the properties `data`, `n_objects`,
+  `n_attributes` they read) for a context whose table is a `BinTableLists`; `Fca/Gen/EquivCtx.lean` proves them equal to
+  the model `Ctx.*`, so the theorems above hold for what the code says now.  (Only `K.backend = .lists` is added to the
+  hypotheses: the other two backends are not in the translated subset.) -/
+namespace Fca.C01
+open Fca
+
+theorem gen_extension_i_exact (K : Ctx) (hb : K.backend = .lists) (hwf : K.table.WF) (B : List Nat)
+    (base : Option (List Nat)) (hB : InRange B K.nAttributes) (hbase : BaseInRange base K.nObjects) :
+    Gen.Lists.ctxExtensionI K B base = .ok (Spec.ext K.table B (base.getD (List.range K.nObjects))) := by
+  rw [Gen.Lists.ctxExtensionI_eq_model K hb hwf B base hB hbase, extension_i_exact K hwf B base hB hbase]
+
+theorem gen_intention_i_exact (K : Ctx) (hb : K.backend = .lists) (hwf : K.table.WF) (A : List Nat)
+    (base : Option (List Nat)) (hA : InRange A K.nObjects) (hbase : BaseInRange base K.nAttributes) :
+    Gen.Lists.ctxIntentionI K A base = .ok (Spec.int K.table A (base.getD (List.range K.nAttributes))) := by
+  rw [Gen.Lists.ctxIntentionI_eq_model K hb hwf A base hA hbase, intention_i_exact K hwf A base hA hbase]
+
+theorem gen_extension_monotone_i_exact (K : Ctx) (hb : K.backend = .lists) (hwf : K.table.WF) (B : List Nat)
+    (base : Option (List Nat)) (hB : InRange B K.nAttributes) (hbase : BaseInRange base K.nObjects)
+    (hnotfull : B.length ≠ K.nAttributes) :
+    Gen.Lists.ctxExtensionMonotoneI K B base = .ok (Spec.extMono K.table B (base.getD (List.range K.nObjects))) := by
+  rw [Gen.Lists.ctxExtensionMonotoneI_eq_model K hb hwf B base hB hbase,
+    extension_monotone_i_exact K hwf B base hB hbase hnotfull]
+
+theorem gen_extension_monotone_i_full (K : Ctx) (B : List Nat) (base : Option (List Nat))
+    (hfull : B.length = K.nAttributes) :
+    Gen.Lists.ctxExtensionMonotoneI K B base = .ok (base.getD (List.range K.nObjects)) := by
+  rw [Gen.Lists.ctxExtensionMonotoneI_full_eq_model K B base hfull, extension_monotone_i_full K B base hfull]
+
+theorem gen_intention_monotone_i_exact (K : Ctx) (hb : K.backend = .lists) (hwf : K.table.WF) (A : List Nat)
+    (base : Option (List Nat)) (hA : InRange A K.nObjects) (hnd : A.Nodup) (hbase : BaseInRange base K.nAttributes) :
+    Gen.Lists.ctxIntentionMonotoneI K A base
+      = .ok (Spec.intMono K.table A (base.getD (List.range K.nAttributes))) := by
+  rw [Gen.Lists.ctxIntentionMonotoneI_eq_model K hb hwf A base hbase,
+    intention_monotone_i_exact K hwf A base hA hnd hbase]
+
+/-- `extension(attributes, base_objects)` by name, all names known (the statement of `extension_by_name`) -/
+theorem gen_extension_by_name (K : Ctx) (hb : K.backend = .lists) (hwf : K.table.WF)
+    (hobj : K.objNames.length = K.nObjects) (hattr : K.attrNames.length = K.nAttributes)
+    (attrs : List String) (base : Option (List String))
+    (hattrs : ∀ a ∈ attrs, a ∈ K.attrNames) (hbs : ∀ bs, base = some bs → ∀ g ∈ bs, g ∈ K.objNames) :
+    ∃ ai bi, namesToIdx K.attrNames attrs = .ok ai ∧
+      ai.map (fun i => K.attrNames.getD i "") = attrs ∧
+      (match base with
+        | none => bi = List.range K.nObjects
+        | some bs => namesToIdx K.objNames bs = .ok bi ∧ bi.map (fun i => K.objNames.getD i "") = bs) ∧
+      Gen.Lists.ctxExtension K attrs base false
+        = .ok ((Spec.ext K.table ai bi).map fun g => K.objNames.getD g "") := by
+  rw [Gen.Lists.ctxExtension_eq_model K hb hwf hobj hattr attrs base false]
+  exact extension_by_name K hwf hobj hattr attrs base hattrs hbs
+
+theorem gen_intention_by_name (K : Ctx) (hb : K.backend = .lists) (hwf : K.table.WF)
+    (hobj : K.objNames.length = K.nObjects) (hattr : K.attrNames.length = K.nAttributes)
+    (objs : List String) (oi : List Nat) (hoi : namesToIdx K.objNames objs = .ok oi) :
+    Gen.Lists.ctxIntention K objs false
+      = .ok ((Spec.int K.table oi (List.range K.nAttributes)).map fun m => K.attrNames.getD m "") := by
+  rw [Gen.Lists.ctxIntention_eq_model K hb hwf hobj hattr objs false]
+  exact intention_by_name K hwf hobj objs oi hoi
+
+/-- an unknown attribute / base-object / object name is a `KeyError` of the source-derived definitions as well —
+    no hypothesis on the context (the `try … except KeyError: raise KeyError` of the source keeps the class) -/
+theorem gen_unknown_name_keyerror (K : Ctx) (mono : Bool) :
+    (∀ attrs base, (∃ a ∈ attrs, a ∉ K.attrNames) → Gen.Lists.ctxExtension K attrs base mono = .error .KeyError) ∧
+    (∀ attrs bs, (∀ a ∈ attrs, a ∈ K.attrNames) → (∃ g ∈ bs, g ∉ K.objNames) →
+        Gen.Lists.ctxExtension K attrs (some bs) mono = .error .KeyError) ∧
+    (∀ objs, (∃ g ∈ objs, g ∉ K.objNames) → Gen.Lists.ctxIntention K objs mono = .error .KeyError) := by
+  obtain ⟨h1, h2, h3⟩ := unknown_name_keyerror K mono
+  exact ⟨fun attrs base h => Gen.Lists.ctxExtension_error_eq_model K attrs base mono _ (h1 attrs base h),
+    fun attrs bs ha h => Gen.Lists.ctxExtension_error_eq_model K attrs (some bs) mono _ (h2 attrs bs ha h),
+    fun objs h => Gen.Lists.ctxIntention_error_eq_model K objs mono _ (h3 objs h)⟩
+
+/-- non-vacuity, and the generated definitions compute: -/
+example : Gen.Lists.ctxExtension ⟨.lists, ⟨[[true, false, true], [true, true, false]], 3⟩, ["g0", "g1"], ["a", "b", "c"]⟩
+    ["c", "a"] (some ["g1", "g0"]) false = .ok ["g0"] := by rfl
 
 end Fca.C01
